@@ -1,6 +1,7 @@
 import PsVerif.Driver.Pure
 import PsVerif.Driver.Stateful
 import PsVerif.Driver.Abs
+import PsVerif.Driver.ScriptD
 /-
 psdriver: one request per line on stdin, one reply per line on stdout.
 The replies are computed by the SAME definitions the theorems in PsVerif/Props are about.
@@ -13,6 +14,9 @@ structure DState where
 
 def step (st : DState) (ws : List String) : DState × String :=
   match handlePure ws with
+  | some r => (st, r)
+  | none =>
+  match handleScript ws with
   | some r => (st, r)
   | none =>
   match handlePremium st.rates ws with
